@@ -1056,7 +1056,15 @@ func (dsc *dataStoreCommand) dictScanUnlocked(data *redisDict, cursor uint32, pa
 	count int,
 	isMatch func(item *redisDictItem) any) (output respValue) {
 	result := make([]any, 2)
-	matches := make([]any, 0, count)
+	// the count is client input: never reserve more than the table can give
+	room := count
+	if room > int(data.count) {
+		room = int(data.count)
+	}
+	if room < 0 {
+		room = 0
+	}
+	matches := make([]any, 0, room)
 
 	highBit := uint32(len(data.buckets)) // always a power of 2
 	shift := 32 - bitPosition(highBit)
@@ -1642,7 +1650,7 @@ func (dsc *dataStoreCommand) lmpop(keyNames []string, left bool, count int) (out
 	defer dsc.unlock()
 
 	var result []any
-	elements := make([]any, 0, count)
+	elements := []any{} // the count is client input: no room is reserved for it
 
 	for _, keyName := range keyNames {
 		list, err := dsc.getListUnlocked(keyName)
